@@ -368,7 +368,16 @@ fn run_history(reg: Reg, front: Front, abp: bool, syms: &[Sym], rng: &mut Prng, 
     for (i, s) in syms.iter().enumerate() {
         let mut script = Script::silent();
         let mut action: Option<Action> = None;
-        let data = rng.bytes_below(12);
+        // one payload in ten is as long as an application may make it at the fastest rates, or longer: together
+        // with the answers the network's commands have queued the frame may no longer fit - the call has to
+        // come back with a frame or with an error, like any other
+        let data = if rng.chance(1, 10) {
+            col.event("long_application_payloads");
+            let n = rng.range(200, 256) as usize;
+            rng.bytes(n)
+        } else {
+            rng.bytes_below(12)
+        };
         let port = rng.range(1, 223) as u8;
         let mut listen: Option<Vec<Vec<u8>>> = None;
         if front == Front::Nb {
